@@ -6,6 +6,7 @@ import Rbql.Model.Utf8
 import Rbql.Model.Writer
 import Rbql.Model.Like
 import Rbql.Model.PyString
+import Rbql.Model.TablePath
 import Rbql.Model.Sources
 import Rbql.Model.Parse
 import Rbql.Model.ParseJs
@@ -225,6 +226,13 @@ def stepTranslate (ws : List String) : Option String :=
       | .error (.var (.columnNotFound _)) => "err notfound"
       | .error (.var (.badDirectName _)) => "err badname"
       | .error (.var (.ambiguous _)) => "err ambiguous")
+  | ["tablepath", cwd, home, mainDir, tableId, files, index] =>
+    -- find_table_path over an abstract file system (Model/TablePath.lean)
+    let env : FsEnv := { files := decList files, cwd := decStr cwd, home := decStr home,
+                         indexLines := if index == "N" then none else some (decList (index.drop 1).toString) }
+    some (match findTablePath env (if mainDir == "N" then none else some (decStr (mainDir.drop 1).toString)) (decStr tableId) with
+      | some p => "S" ++ encStr p
+      | none => "N")
   | ["unquotestr", s] => some (match unquoteString (decStr s) with | some v => "S" ++ encStr v | none => "N")
   | _ => none
 
